@@ -3,6 +3,7 @@
 UNITS = {
     "C01": [
         dict(test="TestC01_Tree", quick=dict(checks=1500, shards=4), thorough=dict(checks=40000, shards=16)),
+        dict(test="TestC01_Wide", quick=dict(checks=150, shards=2, shrinktime="10s"), thorough=dict(checks=4000, shards=8)),
     ],
 }
 
@@ -69,6 +70,7 @@ UNITS["C10"] = [
 UNITS["C12"] = [
     dict(test="TestC12_Tables", quick=dict(), thorough=dict()),
     dict(test="TestC12_Regenerate", quick=dict(), thorough=dict()),
+    dict(test="TestC12_Refresh", quick=dict(), thorough=dict(timeout=3000)),
     dict(test="TestC12_Generator", quick=dict(checks=40, shards=1), thorough=dict(checks=500, shards=4)),
 ]
 
